@@ -32,6 +32,16 @@ func quads(f seccomp.Filter) [][4]uint32 {
 	return r
 }
 
+// one Builder value that lives as long as the process: callers may keep a Builder and build again
+var shared libseccomp.Builder
+
+// every filter Build returned in this process stays referenced, with a copy of its content at that time
+var (
+	heldID   []int
+	held     []seccomp.Filter
+	heldSnap [][][4]uint32
+)
+
 func main() {
 	hx.Init()
 	hx.Cases(func(c map[string]any) map[string]any {
@@ -52,13 +62,33 @@ func main() {
 			}
 			return map[string]any{"names": names, "nums": nums, "arch": info.ID, "mask": info.SeccompMask}
 		case "build":
-			b := libseccomp.Builder{Allow: strs(c["allow"]), Trace: strs(c["trace"]), Default: libseccomp.Action(uint32(hx.Int(c["default"])))}
+			b := &libseccomp.Builder{}
+			if c["reuse"] == true {
+				b = &shared
+			}
+			b.Allow, b.Trace, b.Default = strs(c["allow"]), strs(c["trace"]), libseccomp.Action(uint32(hx.Int(c["default"])))
 			f, err := b.Build()
 			if err != nil {
 				return map[string]any{"err": err.Error()}
 			}
 			fp := f.SockFprog()
-			return map[string]any{"filter": quads(f), "len": fp.Len}
+			q := quads(f)
+			heldID, held, heldSnap = append(heldID, int(hx.Int(c["id"]))), append(held, f), append(heldSnap, q)
+			return map[string]any{"filter": q, "len": fp.Len}
+		case "recheck":
+			// the filters returned earlier, read again now
+			changed := []map[string]any{}
+			for i, f := range held {
+				now := quads(f)
+				same := len(now) == len(heldSnap[i])
+				for j := 0; same && j < len(now); j++ {
+					same = now[j] == heldSnap[i][j]
+				}
+				if !same {
+					changed = append(changed, map[string]any{"id": heldID[i], "now": now})
+				}
+			}
+			return map[string]any{"held": len(held), "changed": changed}
 		case "cleantrace":
 			a, t := config.CleanTraceVerif(strs(c["allow"]), strs(c["trace"]))
 			sort.Strings(a)
